@@ -35,6 +35,19 @@ M = [
  ('C06-m7', 'C06', 'cedar-policy/src/proto/ast.rs', '                ast::Expr::ite(\n                    ast::Expr::try_from(test_expr)?,\n                    ast::Expr::try_from(then_expr)?,\n                    ast::Expr::try_from(else_expr)?,', '                ast::Expr::ite(\n                    ast::Expr::try_from(test_expr)?,\n                    ast::Expr::try_from(else_expr)?,\n                    ast::Expr::try_from(then_expr)?,'),
  ('C06-m8', 'C06', 'cedar-policy/src/proto/policy.rs', '            ast::PrincipalConstraint::try_from(\n                v.principal_constraint\n                    .ok_or_else(|| ProtobufConversionError::missing("principal_constraint"))?,', '            ast::PrincipalConstraint::try_from(\n                v.resource_constraint.clone()\n                    .ok_or_else(|| ProtobufConversionError::missing("principal_constraint"))?,'),
  ('C06-m9', 'C06', 'cedar-policy/src/proto/policy.rs', '            resource_euid: v\n                .env()\n                .get(&ast::SlotId::resource())', '            resource_euid: v\n                .env()\n                .get(&ast::SlotId::principal())'),
+ ('C03-m1', 'C03', CORE + 'validator/typecheck.rs', 'if t1 == t2 && self.is_valid_comparison_op_type(t1) =>', 'if self.is_valid_comparison_op_type(t1) && self.is_valid_comparison_op_type(t2) =>'),
+ ('C03-m2', 'C03', CORE + 'validator/typecheck.rs', '                        TypecheckAnswer::success(if typ_arg == &Type::singleton_boolean(true) {\n                            ExprBuilder::with_data(Some(Type::singleton_boolean(false)))', '                        TypecheckAnswer::success(if typ_arg == &Type::singleton_boolean(true) {\n                            ExprBuilder::with_data(Some(Type::singleton_boolean(true)))'),
+ ('C03-m3', 'C03', CORE + 'validator/typecheck.rs', '                            (Some(Type::Never), Some(Type::Never)) => TypecheckAnswer::fail(expr),\n                            (Some(Type::Never), Some(other)) => {\n                                if self.is_valid_comparison_op_type(other) {', '                            (Some(Type::Never), Some(Type::Never)) => TypecheckAnswer::fail(expr),\n                            (Some(Type::Never), Some(other)) => {\n                                if true || self.is_valid_comparison_op_type(other) {'),
+ ('C03-m4', 'C03', CORE + 'validator/typecheck.rs', '                    self.expect_type(prior_capability, arg2, Type::any_set(), type_errors, |_| {\n                        Some(UnexpectedTypeHelp::TryUsingSingleContains)\n                    })', '                    self.typecheck(prior_capability, arg2, type_errors)'),
+ ('C03-m5', 'C03', CORE + 'validator/typecheck.rs', '                            (Some(Type::Long), Some(other)) => {\n                                type_errors.push(ValidationError::expected_one_of_types(\n                                    expr_ty_arg2.source_loc().cloned(),\n                                    self.policy_id.clone(),\n                                    vec![Type::primitive_long()],\n                                    other.clone(),\n                                    None,\n                                ));\n', '                            (Some(Type::Long), Some(_other)) => {\n'),
+ ('C03-m6', 'C03', CORE + 'validator/typecheck.rs', '                        let ans_right = self.expect_type(\n                            prior_capability,\n                            right,', '                        let ans_right = self.expect_type(\n                            &prior_capability.union(&capability_left),\n                            right,'),
+ ('C03-m7', 'C03', CORE + 'validator/typecheck.rs', 'capability_right.intersect(&capability_left),', 'capability_right.union(&capability_left),'),
+ ('C03-m8', 'C03', CORE + 'validator/typecheck.rs', 'else_capability.intersect(&then_capability),', 'then_capability,'),
+ ('C03-m9', 'C03', CORE + 'validator/typecheck.rs', '                        Some(Type::Bool(BoolType::False)) => TypecheckAnswer::success(\n                            typ_left.with_maybe_source_loc(e.source_loc().cloned()),\n                        ),', '                        Some(Type::Bool(BoolType::False | BoolType::True)) => TypecheckAnswer::success(\n                            typ_left.with_maybe_source_loc(e.source_loc().cloned()),\n                        ),'),
+ ('C03-m10', 'C03', CORE + 'validator/typecheck.rs', '                        let ans_else = self.typecheck(prior_capability, else_expr, type_errors);\n                        // The type of the if expression', '                        let ans_else = self.typecheck(&prior_capability.union(&test_capability), else_expr, type_errors);\n                        // The type of the if expression'),
+ ('C03-m11', 'C03', CORE + 'validator/typecheck.rs', '                                if ty.is_required\n                                    || prior_capability', '                                if true\n                                    || prior_capability'),
+ ('C03-m12', 'C03', CORE + 'validator/typecheck.rs', 'let type_of_has = if is_record_type || in_prior_capability {', 'let type_of_has = if true || is_record_type || in_prior_capability {'),
+ ('C03-m13', 'C03', CORE + 'validator/typecheck.rs', '                                        Type::singleton_boolean(true)\n                                    } else {\n                                        Type::primitive_boolean()\n                                    },\n                                ))\n                                .with_same_source_loc(e)\n                                .has_attr', '                                        Type::singleton_boolean(true)\n                                    } else {\n                                        Type::singleton_boolean(true)\n                                    },\n                                ))\n                                .with_same_source_loc(e)\n                                .has_attr'),
  ('C17-m1', 'C17', CORE + 'validator/entity_manifest.rs', '            if matches!(op, BinaryOp::In) {', '            if false && matches!(op, BinaryOp::In) {'),
  ('C17-m2', 'C17', CORE + 'validator/entity_manifest.rs', '            .union(entity_manifest_from_expr(then_expr)?)\n            .union(entity_manifest_from_expr(else_expr)?)),', '            .union(entity_manifest_from_expr(then_expr)?)),'),
  ('C17-m3', 'C17', CORE + 'validator/entity_manifest.rs', '        ExprKind::HasAttr { expr, attr } => Ok(entity_manifest_from_expr(expr)?\n            .get_or_has_attr(attr)\n            .empty_paths()),', '        ExprKind::HasAttr { expr, attr: _ } => Ok(entity_manifest_from_expr(expr)?\n            .empty_paths()),'),
